@@ -12,6 +12,7 @@ const ruleText = "A case is a history of syncs of one publisher on one fresh Sub
 	"single: every fault kind (500, 404, 403, closed connection, TCP reset / stream reset, corrupt body, truncated body, stalled header, stalled body, context cancellation) at EVERY request index of the sync, for heads 1..4, explicit and announce-triggered, segment depth off/1/2, also with a stop position inside the chain and a pre-stored block; followed by a fault-free retry of the same head (and for a subset a third sync in the other mode). " +
 	"pair-same / pair-seq: two faults in one sync, or in two consecutive syncs, then the retry (thorough: all pairs for heads <= 3, pairs that include a stalled response 1 in 12; quick: a seeded sample). hook: FailSync at every hook call index. disc: the discovery request fails. addrchange: the address list changes between syncs (syncer re-creation, sorted-address quirk). random: seeded histories of 3..6 syncs mixing everything. " +
 	"queued: a second, newer head is announced while the stalled sync of the first runs (it is the pending message when that sync fails), the script runs on into the queued sync, then both heads are announced again on a healthy publisher. " +
+	"opts: Subscriber options around failures: MaxAsyncConcurrency(1|2) with as many and more failed announce-triggered syncs (request faults, hook failures) as there are slots, then healthy announcements (each must be processed) and an explicit sync; no BlockHook; StrictAdsSelector(false); announce.WithFilterIPs (the sync client cannot be made). " +
 	"both: fault-free explicit syncs (heads 1..4, every latest-sync position, every pre-stored subset, segment off/1/2/3) whose observed request log, hook order, store and latest-sync are checked against C04's model AND C01's sync_ad_chain in one Coq checker (both_case_ok). " +
 	"non-trivial = some sync of the history failed AND a later successful sync had to send requests"
 
@@ -321,6 +322,84 @@ func generate(c *vlib.Ctx) []*Hist {
 					}
 				}
 			}
+		}
+	}
+
+	// ---- Subscriber options that change the control flow around failures
+	// (a) MaxAsyncConcurrency(n): n (and more) failed announce-triggered syncs, then healthy
+	//     announcements: each must be processed (a failed sync gives its slot back)
+	for _, wc := range worldCfgs {
+		if wc.name != "one" && !(wc.kind == "plain" && wc.name == "alive+dead") {
+			continue
+		}
+		for _, n := range []int{1, 2} {
+			for _, seg := range []int{0, 1} {
+				for head := 1; head <= 2; head++ {
+					fks := []fd.Fault{{K: "status", N: 500}, {K: "transport"}, {K: "corrupt"}, {K: "notfound"}}
+					if !thorough && wc.kind != "plain" {
+						fks = fks[:2]
+					}
+					for fi, f := range fks {
+						for at := 0; at < head; at++ {
+							if !thorough && (at+fi+seg+n)%2 == 1 {
+								continue
+							}
+							var ops []fd.Op
+							for q := 0; q < n; q++ {
+								ops = append(ops, mkop("announce", wc.addrs, head, script(at, f)))
+							}
+							ops = append(ops, mkop("announce", wc.addrs, head, nil))
+							// one more failure and recovery with the newer head
+							ops = append(ops, mkop("announce", wc.addrs, head+1, script(0, f)), mkop("announce", wc.addrs, head+1, nil))
+							if fi == 0 && at == 0 && seg == 0 {
+								ops = append(ops, mkop("explicit", wc.addrs, head+1, nil))
+							}
+							add(&Hist{Fam: "opts", Kind: wc.kind, Alive: wc.alive, Cfg: fd.Config{Seg: seg, MaxAsync: n}, Retry: n, Class: fmt.Sprintf("maxasync%d+%s", n, f.String()),
+								Ops: ops})
+						}
+					}
+					if seg == 1 {
+						// hook failures take the same exit
+						var ops []fd.Op
+						for q := 0; q < n; q++ {
+							a := mkop("announce", wc.addrs, head, nil)
+							a.HookFail = 0
+							ops = append(ops, a)
+						}
+						ops = append(ops, mkop("announce", wc.addrs, head, nil))
+						add(&Hist{Fam: "opts", Kind: wc.kind, Alive: wc.alive, Cfg: fd.Config{Seg: seg, MaxAsync: n}, Retry: n, Class: fmt.Sprintf("maxasync%d+hookfail", n), Ops: ops})
+					}
+				}
+			}
+		}
+	}
+	// (b) no BlockHook (segmentation silently off, nothing for FailSync to act on), the
+	//     non-strict advertisement selector, both with a concurrency limit as well
+	for _, wc := range worldCfgs {
+		if wc.name != "one" {
+			continue
+		}
+		for _, cfg := range []fd.Config{{NoHook: true}, {NoHook: true, Seg: 2, MaxAsync: 1}, {NonStrict: true}, {NonStrict: true, Seg: 1, MaxAsync: 2}} {
+			for _, mode := range modes {
+				head := 2
+				n := nreq(wc.kind, mode, head, cfg)
+				fks := []fd.Fault{{K: "status", N: 500}, {K: "notfound"}, {K: "transport"}, {K: "corrupt"}}
+				for _, f := range fks {
+					for at := 0; at < n; at++ {
+						add(&Hist{Fam: "opts", Kind: wc.kind, Alive: wc.alive, Cfg: cfg, Retry: 1, Class: "options+" + f.String(),
+							Ops: []fd.Op{mkop(mode, wc.addrs, head, script(at, f)), mkop(mode, wc.addrs, head, nil), mkop(other(mode), wc.addrs, head, nil)}})
+					}
+				}
+			}
+		}
+	}
+	// (c) announce.WithFilterIPs: the loopback addresses are dropped from the announcement,
+	//     the sync client cannot be made (stream world: a libp2p host without addresses for the
+	//     publisher): failure before the first request, twice
+	for head := 1; head <= 2; head++ {
+		for _, n := range []int{0, 1} {
+			add(&Hist{Fam: "opts", Kind: "stream", Alive: []bool{true, true}, Cfg: fd.Config{FilterIPs: true, MaxAsync: n}, Retry: -1, Class: "filterips",
+				Ops: []fd.Op{mkop("announce", []int{0}, head, nil), mkop("announce", []int{0}, head, nil), mkop("announce", []int{0, 1}, head, nil)}})
 		}
 	}
 
